@@ -89,7 +89,7 @@ def run(ctx):
             # the same two spellings presented as CLUSTAL / MSF / gapped FASTA (each reader counts letters on its own)
             import random as _random
             from props import c04
-            rows = c04.gap_rows(rng, recs, rng.choice([0.0, 0.05]))
+            rows = c04.gap_rows(rng, recs, rng.choice([0.0, 0.05, 0.9, 0.95]))      # up to very sparse rows (20 gaps per residue)
 
             def relabel(row, s):
                 it = iter(s)
@@ -150,9 +150,12 @@ def run(ctx):
             continue
         if a.api == "file" and a.kv["biotype"] == 0 and any(x.upper().replace("U", "T") != y.upper().replace("U", "T") or
                                                           x.upper() != y.upper() for (_, x), (_, y) in zip(a.records, b.records)):
-            # nucleotide-looking input that kalign classifies as protein, respelled in T/U: outside the property (T, U are distinct amino acids)
-            ctx.count("skipped_TU_on_protein_classified")
-            continue
+            # nucleotide-looking input classified as protein, respelled in T/U: if the residues themselves decide for protein (independent
+            # re-statement of the decision on the letters alone) T and U are distinct amino acids and the clause does not apply; if the letters
+            # decide for nucleotide, kalign's classification is what is wrong and the respelling must still not change the gap pattern
+            if gen.detect_kind(a.records) != "dna" or gen.detect_kind(b.records) != "dna":
+                ctx.count("skipped_TU_on_protein_classified")
+                continue
         ra, rb = sysrun.parse_output(a), sysrun.parse_output(b)
         if mask(ra) != mask(rb):
             fails.append(("gap pattern differs between the two spellings", dict(a=a.describe(), b=b.describe(), rows_a=ra, rows_b=rb)))
